@@ -90,7 +90,22 @@ fn long_string_value(token: &LuaSyntaxToken) -> Result<String, LuaParseError> {
         }
     }
 
-    let content = &text[i..(text.len() - equal_num - 2)];
+    // an unterminated long string (`[[` + newline + text, no closing bracket) must not be sliced
+    // as if the closing bracket were there
+    let end = text.len() - equal_num - 2;
+    let closing = format!("]{}]", "=".repeat(equal_num));
+    if i > end || !text.ends_with(&closing) {
+        return Err(LuaParseError::new(
+            LuaParseErrorKind::SyntaxError,
+            &t!(
+                "Invalid long string end, expected '%{eq}]'",
+                eq = "=".repeat(equal_num)
+            ),
+            range,
+        ));
+    }
+
+    let content = &text[i..end];
 
     Ok(content.to_string())
 }
